@@ -68,10 +68,10 @@ def obligations(tier):
         qa = (1,)
         tm = (0, 1, rate - 1, rate, rate + 1, 2 * rate, 2 * rate + 7)
         ta = (0, 1, rate, rate + 1)
-        ms, als = (sorted(set(tm)), list(ta)) if tier == "thorough" else (list(qm), list(qa))
+        ms, als = (sorted(set(tm)), list(ta)) if tier == "thorough" else ([], [])
         for ml in ms:
             for al in als:
-                q = ml in qm and al in qa
+                q = False  # 4-11 min of SAT time each: thorough tier only (the quick tier keeps C02's aegis256-reject)
                 obs.append(Ob("aegis%s-spec-m%d-a%d" % (an, ml, al), "C01/aegis.c",
                               units=AEGIS_UNITS[ag] + GLUE_UNITS, stubs=AEGIS_STUBS, instrument=AEGIS_CUTS[ag], object_bits=12, defs={"AEGIS": ag, "MLEN": ml, "ADLEN": al, "PART": 0},
                               unwind=110, timeout=2400, mem=8, tier="quick" if q else "thorough", family="aegis%s-soft" % an,
@@ -82,7 +82,8 @@ def obligations(tier):
         # PART 2 (Init == spec: 96 resp. 80 rounds on each side) gave no verdict in 20 min with R uninterpreted: not registered
         for part, nm in ((3, "finalize"),):
             obs.append(Ob("aegis%s-%s" % (an, nm), "C01/aegis.c", units=AEGIS_UNITS[ag] + GLUE_UNITS, stubs=AEGIS_STUBS,
-                          defs={"AEGIS": ag, "MLEN": 1, "ADLEN": 1, "PART": part}, object_bits=12, unwind=40, timeout=1200, mem=8, family="aegis%s-soft" % an,
+                          defs={"AEGIS": ag, "MLEN": 1, "ADLEN": 1, "PART": part}, object_bits=12, unwind=40, timeout=3000, mem=8, family="aegis%s-soft" % an,
+                          tier="thorough",
                           desc="AEGIS %s phase == draft specification over an abstract AES round" % nm,
                           bounds="all keys/nonces (init) resp. arbitrary state and all lengths < 2^61 bytes (finalize)"))
     return obs
